@@ -302,6 +302,35 @@ def _find_helper(unit, name):
     return found[0] if len(found) == 1 else None
 
 
+def _let_else_return(body):
+    """a helper body that OPENS with `let PAT = E else { return R; };` and has no other `return`: the same as `match E { PAT => { REST } _ => { R } }` (the early
+    return leaves the helper, which is what the second arm's value does).  Anything else is handed back unchanged."""
+    from vlib.rsitems import mask, match_delim
+    m = mask(body)
+    mt = re.match(r"\s*let\s+", m)
+    if not mt:
+        return body
+    ke = re.search(r"\belse\s*\{", m)
+    if not ke:
+        return body
+    head = m[mt.end():ke.start()]
+    if ";" in head or head.count("=") < 1 or "{" in head.split("=", 1)[0]:
+        return body
+    b = ke.end() - 1
+    e = match_delim(m, b)
+    inner = body[b + 1:e].strip()
+    mr = re.fullmatch(r"return\b\s*(.*?);?", inner, re.S)
+    if not mr or not re.match(r"\s*;", m[e + 1:]):
+        return body
+    semi = e + 1 + m[e + 1:].index(";")
+    rest = body[semi + 1:]
+    if re.search(r"\breturn\b", mask(rest)) or re.search(r"\breturn\b", mask(mr.group(1))):
+        return body
+    k = head.index("=")
+    pat, expr = body[mt.end():mt.end() + k].strip(), body[mt.end() + k + 1:ke.start()].strip()
+    return f" match {expr} {{ {pat} => {{ {rest} }} _ => {{ {mr.group(1) or '()'} }} }} "
+
+
 def _inline_helpers(unit, root, r, prior=()):
     """Second fallback for a call to a function the unit does not contain (a helper a change introduced), when the helper has no spec form:
     the call is replaced, mechanically, by the helper's body as a block — `h(a, b)` becomes `{ let p: P = a; let q: Q = b; BODY }` — in every
@@ -337,6 +366,7 @@ def _inline_helpers(unit, root, r, prior=()):
         src = gen.load_source(hit[0])
         s0, b0, e0 = src.find_fn(name, hit[1])
         sig, body = src.text[s0:b0], src.text[b0 + 1:e0]
+        body = _let_else_return(body)
         mb = mask(body)
         if re.search(r"\breturn\b", mb) or "?" in mb or re.search(r"\b" + re.escape(name) + r"\s*\(", mb):
             return None, []
